@@ -19,7 +19,7 @@ def Frame.escaped (m : Nat) (f : Frame) : Bool :=
 
 def Ret.notHandedBack (m : Nat) (r : Ret) : Bool :=
   r.id == m && (match r.kind with | .send => true | _ => false) &&
-    (match r.res with | .sendErr => false | _ => true)
+    (match r.res with | .sendErr _ => false | _ => true)
 
 structure ShutN (m : Nat) (s : Shared) (B : Nat) : Prop where
   closed : s.word.closed = true
